@@ -5,10 +5,14 @@ PROPERTIES = {
         contracts=[
             ("contracts.scheduler", "scheduler_backtrack_fits_template"),
         ],
-        trusted_base=[],
+        bounded=[dict(module="contracts.bounded_dart", fn="scheduler_end_to_end", function="scheduler_backtrack end to end on concrete schedules (native)")],
+        trusted_base=["abstract contracts of rotate/tile_dim/inner_dims in contracts/scheduler.py restate the per-shape contracts of contracts/dart.py (incl. frame clauses)"],
     ),
     "C03": dict(
         contracts=[
+            ("contracts.dart", "AffineTransform_from_affine_map"),
+            ("contracts.dart", "AffineTransform_from_affine_map_nonlinear"),
+            ("contracts.dart", "AffineTransform_compose"),
             ("contracts.dart", "SchedulePattern_rotate"),
             ("contracts.dart", "SchedulePattern_tile_dim"),
             ("contracts.dart", "SchedulePattern_add_dim"),
@@ -20,7 +24,9 @@ PROPERTIES = {
             ("contracts.dart", "PatternCollection_clear_unused_dims"),
             ("contracts.scheduler", "scheduler_backtrack_iteration_space"),
         ],
-        trusted_base=[],
+        bounded=[dict(module="contracts.bounded_dart", fn="scheduler_end_to_end", function="scheduler_backtrack end to end on concrete schedules (native)")],
+        trusted_base=["paper lemma: a bijection of iteration boxes that commutes with every operand map preserves the multiset of operand-index tuples",
+                      "abstract contracts of rotate/tile_dim/inner_dims in contracts/scheduler.py restate the per-shape contracts of contracts/dart.py (incl. frame clauses)"],
     ),
     "C19": dict(
         contracts=[
@@ -28,6 +34,7 @@ PROPERTIES = {
             ("contracts.dart", "AffineTransform_eval_batch"),
             ("contracts.dart", "AffineTransform_compose"),
             ("contracts.dart", "AffineTransform_from_affine_map"),
+            ("contracts.dart", "AffineTransform_from_affine_map_nonlinear"),
             ("contracts.dart", "AffineTransform_to_affine_map"),
         ],
         trusted_base=[],
